@@ -10,11 +10,11 @@ def run(tier, seed):
     hc = hcommon.HandlerCheck(PROP, tier, seed)
     hc.gate()
     hc.run_corpus(lambda kind: srcprops.oracle_c19)
-    for cfg, data in srcprops.c19_put_matrix_cases(hc.rng):
+    for cfg, data in hcommon.share(srcprops.c19_put_matrix_cases(hc.rng)):
         kind, ops, obs = srcprops.nominal_source_case(cfg, data, ncalls=4)
         hc.add_trace(kind, ops, obs, label="mode/closure matrix", oracle=srcprops.oracle_c19)
         hc.count(("req_mode", cfg.req_mode, "req_closure", cfg.req_closure))
-    n = 250 if tier == "quick" else 2500
+    n = 250 if tier == "quick" else 20000
     for _ in range(n):
         c = campaign.rand_hostile_case(hc.rng, "source")
         c.run()
